@@ -68,6 +68,15 @@ def make_cfg(seed, i):
         cfg["args"]["rhoend"] = float(rb * 10.0 ** rng.uniform(-2.5, -0.3))    # many restarts
     if cfg.get("reg"):
         up["logging.save_poisedness"] = False
+        if r() < 0.6:
+            # regularised problem on large data (the radius update divides by a criticality ratio that becomes tiny there)
+            bs = float(10.0 ** rng.uniform(2, 5))
+            cfg["prob"]["kind"] = "linear"
+            cfg["prob"].setdefault("cond", 10.0)
+            cfg["prob"].setdefault("scale", 1.0)
+            cfg["prob"]["bscale"] = bs
+            cfg["reg"]["lam"] = float(cfg["reg"]["lam"]) * bs
+            cfg["args"]["maxfun"] = max(int(cfg["args"]["maxfun"]), 60)
     if i % 6 == 5:
         # long growing phase: inverse problem (m < n) started from one direction, with the safety-step variants of the growing code
         n = int(rng.integers(5, 11))
